@@ -198,7 +198,11 @@ def pack_cases(draw, mtus=None):
     flavour = draw(st.sampled_from(["udp", "twisted"]))
     # irregular frame pacing (a hitch lets several unacked best-effort messages fall due for resend together)
     dts = draw(st.lists(st.sampled_from([0.02, 0.02, 0.017, 0.05, 0.12, 0.2]), min_size=len(ticks), max_size=len(ticks)))
-    return {"mtu": mtu, "ticks": ticks, "dts": dts,
+    # a network outage during the send phase (0 = none): nothing is acknowledged for a while, so best-effort messages from
+    # different original datagrams fall due for resend together; the MTU and "never lost from the queue" clauses do not care
+    # about the network, the delivery clause is judged on loss-free histories only
+    outage = draw(st.sampled_from([0, 0, 0, 1, 2, 4]))
+    return {"mtu": mtu, "ticks": ticks, "dts": dts, "outage": outage,
             "flavour": flavour, "seed": draw(st.integers(0, 2 ** 16))}
 
 
@@ -244,8 +248,11 @@ def pack_body(ctx, c):
         mixed_multi = False
         dt = 0.02
         total_bytes = 0
+        outage = c.get("outage", 0)
         for ti_, tick in enumerate(c["ticks"]):
             dt = c["dts"][ti_] if "dts" in c and ti_ < len(c["dts"]) else 0.02
+            # the outage covers the first `outage` ticks (everything emitted then is lost, both directions)
+            w.net.policy = (lambda em: []) if ti_ < outage else None
             # queue this tick's sends; client sends happen now, server sends inside handler.update of the tick
             csnap = None
             conn = ch.conn
@@ -289,6 +296,7 @@ def pack_body(ctx, c):
                         mtu, side, k, sum(ns), P, carried[:4]))
                 if k > 1 and len(set(ns)) > 1:
                     mixed_multi = True
+        w.net.policy = None
         dt = 0.02
         # a few irregular frames first, then steady draining: as many send opportunities as the backlog needs, plus slack
         for d_ in (0.12, 0.02, 0.2, 0.02, 0.02, 0.15):
@@ -363,7 +371,7 @@ def pack_body(ctx, c):
                     seen_n[r["payload"]] = seen_n.get(r["payload"], 0) + 1
                     if w.ledger.n_delivered(r["receiver"], r["payload"]) < seen_n[r["payload"]]:
                         undelivered.append(r)
-            if undelivered and not missing and conn is not None and not conn.outgoing_messages:
+            if undelivered and not missing and conn is not None and not conn.outgoing_messages and not outage:
                 r = undelivered[0]
                 ctx.violation("pack-emitted-but-not-decoded", "mtu=%d side=%s: %d of %d unfragmented messages never reached the peer application on a loss-free link; e.g. %d bytes retry=%s" % (
                     mtu, side, len(undelivered), len(accepted), r["n"], r["retry"]))
